@@ -533,3 +533,10 @@ def coopAccepts (checksDiscount : Bool) (g : Graph) (mats : List Mat) (bases : L
       b.cols == spacePartial g.A b.actionTag && b.rows == spacePartial g.S b.tag)
 
 end AITB.MS
+
+namespace AITB.MS
+/-- the `maxS` loop of makeDiscretizer: first strict maximum among the entries that differ from 0 -/
+def argmaxBelief (b : List Rat) : Nat :=
+  (List.range b.length).foldl (fun m s =>
+    if diffSmall (.fin 0) (.fin (b.getD s 0)) && decide (b.getD s 0 > b.getD m 0) then s else m) 0
+end AITB.MS
